@@ -1,6 +1,6 @@
 (** Correspondence check for C16.  Depends on the model only (no proofs). *)
 From Coq Require Import String List NArith Bool.
-From Fabio Require Import Lib.Outcome Lib.Bytes Lib.Verdict Model.GrpcPool Model.GrpcTransport.
+From Fabio Require Import Lib.Outcome Lib.Bytes Lib.Verdict Model.GrpcPool Model.GrpcTransport Model.GrpcKeepalive.
 From Fabio Require Model.Glob Model.Lookup.
 Import ListNotations.
 Local Open Scope N_scope.
@@ -62,6 +62,8 @@ Inductive hstep := HCall (m : md) (upath : option str) (c : hchosen) | HSetTable
 Inductive xhstep := XH (st : hstep) | XHLose (u : url).
 Inductive xsstep := XS (s : sstep) | XSLose (u : url).
 
+Record qobs := mkqobs { qb_bv : option bview; qb_cv : cview; qb_pings : N; qb_begun : N; qb_ended : N }.
+
 Inductive case :=
 (* GrpcProxyInterceptor.lookup on the live table [t] *)
 | CLookup (t : table) (noglob : bool) (m : option md) (upath : option str) (impl : lres)
@@ -84,7 +86,14 @@ Inductive case :=
 (* a history of calls, table changes and real cleanup ticks in which backends lose their
    connections in between, evaluated through the machine with transports
    (Model/GrpcTransport.v [xrun]): connections begun / ended at each backend after every step *)
-| CHistoryX (noglob tls_listener : bool) (down : list url) (steps : list xhstep) (obs : list (list cnt)).
+| CHistoryX (noglob tls_listener : bool) (down : list url) (steps : list xhstep) (obs : list (list cnt))
+(* a history of calls and pauses on ONE backend with enforcement policy [pol], in which nobody
+   sends anything for seconds on end (Model/GrpcKeepalive.v): through the real newGrpcProxy
+   listener ([QProxy]), or -- to test the model of grpc-go's keepalive machine itself -- by a
+   client of the harness with keepalive parameters of its own; after every item: what the
+   backend and the caller saw of the call, keepalive pings the backend has read so far,
+   connections begun / ended at the backend so far *)
+| CQuiet (via : qvia) (pol : policy) (items : list qitem) (obs : list qobs).
 
 (* ---- CPool ---- *)
 Fixpoint pool_same (st : list url * pstate) (ops : list pop2) (obs : list pobs) : bool :=
@@ -309,6 +318,46 @@ Definition cview_transparent (sc : script) (cv : cview) : bool :=
 Definition no_msgs (cv : cview) : bool := match cv_msgs cv with [] => true | _ => false end.
 Definition table_has_grpcs (t : table) : bool := existsb (fun u => has_prefix u s_grpcs) (table_urls t).
 
+(* ---- CQuiet ---- *)
+Fixpoint quiet_same (items : list qitem) (outs : list qout) (obs : list qobs) : bool :=
+  match items, outs, obs with
+  | [], [], [] => true
+  | it :: ri, o :: ro, b :: rb =>
+      (qo_pings o =? qb_pings b) && (qo_begun o =? qb_begun b) && (qo_ended o =? qb_ended b)
+      && opt_eqb bview_eqb (qo_bv o) (qb_bv b)
+      && (match it with
+          | QGap _ => true
+          | QCall _ =>
+              if qo_alive o then cview_eqb (qo_cv o) (qb_cv b)
+              else (* the connection was closed under the call: what had arrived, and Unavailable *)
+                (cv_code (qb_cv b) =? code_unavailable) && msgs_eqb (cv_msgs (qo_cv o)) (cv_msgs (qb_cv b))
+          end)
+      && quiet_same ri ro rb
+  | _, _, _ => false
+  end.
+(* the property on the observations alone, for calls through the proxy: however long a call is
+   silent, the backend has the caller's messages and metadata, the caller has everything the
+   backend sent, and all of it happens on ONE connection that the backend never sees end (it is
+   in the table all the time) *)
+Fixpoint quiet_spec (called : bool) (items : list qitem) (obs : list qobs) : bool :=
+  match items, obs with
+  | [], [] => true
+  | QGap _ :: ri, b :: rb =>
+      (qb_begun b =? (if called then 1 else 0)) && (qb_ended b =? 0) && quiet_spec called ri rb
+  | QCall q :: ri, b :: rb =>
+      (qb_begun b =? 1) && (qb_ended b =? 0)
+      && match qb_bv b with
+         | Some b' => beq (bv_method b') (qc_method q) && md_eqb (bv_md b') (md_out (qc_md q)) && msgs_eqb (bv_msgs b') (qc_reqs q)
+         | None => false
+         end
+      && cview_transparent (qc_script q) (qb_cv b)
+      && quiet_spec true ri rb
+  | _, _ => false
+  end.
+Definition has_msg (q : qcall) : bool := match ph_msgs (qc_phases q) with [] => false | _ => true end.
+Definition long_quiet (q : qcall) : bool :=
+  existsb (fun p => match p with PQuiet d => ka_floor <=? d | _ => false end) (qc_phases q).
+
 Definition check_case (c : case) : N :=
   match c with
   | CLookup t noglob m upath impl =>
@@ -401,4 +450,15 @@ Definition check_case (c : case) : N :=
                   end
                   && xroute_spec ng down [] steps in
       verdict same spec None (reached_after_loss [] steps)
+  | CQuiet via pol items obs =>
+      (* domain: every call is answered with at least one message (then both a caller behind the
+         proxy and a direct client see the backend's headers) *)
+      if negb (forallb (fun it => match it with QCall q => has_msg q | QGap _ => true end) items) then v_disagree else
+      let same := quiet_same items (qrun via pol q_init items) obs in
+      let spec := match via with QProxy => quiet_spec false items obs | QDirect _ => true end in
+      verdict same spec None
+              (match via with
+               | QProxy => existsb (fun it => match it with QCall q => long_quiet q | QGap d => ka_floor <=? d end) items
+               | QDirect _ => existsb (fun o => 0 <? qo_pings o) (qrun via pol q_init items)   (* the machine did something *)
+               end)
   end.
